@@ -46,11 +46,11 @@ import (
 type Kind int
 
 const (
-	Tok   Kind = iota // terminal Ch
-	Ref               // nonterminal NT
-	Group             // ( alt | alt ... )
-	Opt               // Sub?
-	List              // Sub+ Sub* (Sub separator Sep)+ (Sub separator Sep)*
+	KTok   Kind = iota // terminal Ch
+	KRef               // nonterminal NT
+	KGroup             // ( alt | alt ... )
+	KOpt               // Sub?
+	KList              // Sub+ Sub* (Sub separator Sep)+ (Sub separator Sep)*
 )
 
 // ArrowKind says whether an arrow is reported.
@@ -101,16 +101,16 @@ type Grammar struct {
 // ---------------------------------------------------------------------------------------------
 // printing
 
-func termName(ch byte) string { return "t" + string(rune(ch)) }
+func evTermName(ch byte) string { return "t" + string(rune(ch)) }
 
 // Terminals lists the terminals used, sorted.
 func (g *Grammar) Terminals() []byte {
 	seen := map[byte]bool{}
 	g.walkExprs(func(e *Expr) {
-		if e.Kind == Tok {
+		if e.Kind == KTok {
 			seen[e.Ch] = true
 		}
-		if e.Kind == List && e.Sep != 0 {
+		if e.Kind == KList && e.Sep != 0 {
 			seen[e.Sep] = true
 		}
 	})
@@ -207,15 +207,15 @@ func (g *Grammar) groupString(e *Expr) string {
 
 func (g *Grammar) exprString(e *Expr) string {
 	switch e.Kind {
-	case Tok:
-		return termName(e.Ch)
-	case Ref:
+	case KTok:
+		return evTermName(e.Ch)
+	case KRef:
 		return g.NTs[e.NT].Name
-	case Group:
+	case KGroup:
 		return g.groupString(e)
-	case Opt:
+	case KOpt:
 		return g.exprString(e.Sub) + "?"
-	case List:
+	case KList:
 		q := "*"
 		if e.Plus {
 			q = "+"
@@ -226,10 +226,10 @@ func (g *Grammar) exprString(e *Expr) string {
 		// '(' rhsParts listSeparator ')' : the element is a plain sequence of parts, so an
 		// annotated or multi-alternative element stays in its own parentheses.
 		inner := g.exprString(e.Sub)
-		if e.Sub.Kind == Group && len(e.Sub.Alts) == 1 && e.Sub.Alts[0].Arrow == nil && len(e.Sub.Alts[0].Parts) > 0 {
+		if e.Sub.Kind == KGroup && len(e.Sub.Alts) == 1 && e.Sub.Alts[0].Arrow == nil && len(e.Sub.Alts[0].Parts) > 0 {
 			inner = strings.TrimSuffix(strings.TrimPrefix(inner, "("), ")")
 		}
-		return "(" + inner + " separator " + termName(e.Sep) + ")" + q
+		return "(" + inner + " separator " + evTermName(e.Sep) + ")" + q
 	}
 	panic("bad expr kind")
 }
@@ -270,7 +270,7 @@ func (g *Grammar) TM(name string, fixWS bool, options ...string) string {
 	}
 	sb.WriteString("\n:: lexer\n\nWhiteSpace: /[ ]+/ (space)\n")
 	for _, ch := range g.Terminals() {
-		fmt.Fprintf(&sb, "%s: /%c/\n", termName(ch), ch)
+		fmt.Fprintf(&sb, "%s: /%c/\n", evTermName(ch), ch)
 	}
 	fmt.Fprintf(&sb, "\n:: parser\n\n%%input %s;\n\n", g.NTs[0].Name)
 	seen := map[string]bool{}
@@ -331,17 +331,17 @@ func (g *Grammar) TermSlots() []*byte {
 	var we func(e *Expr)
 	we = func(e *Expr) {
 		switch e.Kind {
-		case Tok:
+		case KTok:
 			out = append(out, &e.Ch)
-		case Group:
+		case KGroup:
 			for _, a := range e.Alts {
 				for _, p := range a.Parts {
 					we(p)
 				}
 			}
-		case Opt:
+		case KOpt:
 			we(e.Sub)
-		case List:
+		case KList:
 			we(e.Sub)
 			if e.Sep != 0 {
 				out = append(out, &e.Sep)
@@ -364,13 +364,13 @@ func (g *Grammar) TermSlots() []*byte {
 // written inside another annotated alternative of the same rule, "/nullable" when the annotated
 // content can be without tokens although it has parts.
 func (g *Grammar) AssignShapes() {
-	d := &deriver{g: g}
+	d := &evDeriver{g: g}
 	d.prepare()
 	var we func(e *Expr, depth int)
 	var wa func(a *Alt, shape string, depth int)
 	we = func(e *Expr, depth int) {
 		switch e.Kind {
-		case Group:
+		case KGroup:
 			shape := "nested"
 			if len(e.Alts) > 1 {
 				shape = "choice"
@@ -378,8 +378,8 @@ func (g *Grammar) AssignShapes() {
 			for _, a := range e.Alts {
 				wa(a, shape, depth)
 			}
-		case Opt:
-			if e.Sub.Kind == Group {
+		case KOpt:
+			if e.Sub.Kind == KGroup {
 				shape := "opt"
 				if len(e.Sub.Alts) > 1 {
 					shape = "opt-choice"
@@ -388,8 +388,8 @@ func (g *Grammar) AssignShapes() {
 					wa(a, shape, depth)
 				}
 			}
-		case List:
-			if e.Sub.Kind == Group {
+		case KList:
+			if e.Sub.Kind == KGroup {
 				shape := "list"
 				if e.Sep != 0 {
 					shape = "seplist"
@@ -460,14 +460,14 @@ type Part struct {
 	TI, TJ int
 }
 
-type frag struct {
+type evFrag struct {
 	syms  []*Node
 	parts []Part
 }
 
-const inf = 1 << 20
+const evInf = 1 << 20
 
-type deriver struct {
+type evDeriver struct {
 	g        *Grammar
 	w        []byte
 	minLen   []int
@@ -479,10 +479,10 @@ type deriver struct {
 	budget   int
 }
 
-func (d *deriver) prepare() {
+func (d *evDeriver) prepare() {
 	d.minLen = make([]int, len(d.g.NTs))
 	for i := range d.minLen {
-		d.minLen[i] = inf
+		d.minLen[i] = evInf
 	}
 	for changed := true; changed; {
 		changed = false
@@ -497,34 +497,34 @@ func (d *deriver) prepare() {
 	}
 }
 
-func (d *deriver) seqMin(parts []*Expr) int {
+func (d *evDeriver) seqMin(parts []*Expr) int {
 	s := 0
 	for _, p := range parts {
 		s += d.exprMin(p)
-		if s >= inf {
-			return inf
+		if s >= evInf {
+			return evInf
 		}
 	}
 	return s
 }
 
-func (d *deriver) exprMin(e *Expr) int {
+func (d *evDeriver) exprMin(e *Expr) int {
 	switch e.Kind {
-	case Tok:
+	case KTok:
 		return 1
-	case Ref:
+	case KRef:
 		return d.minLen[e.NT]
-	case Group:
-		m := inf
+	case KGroup:
+		m := evInf
 		for _, a := range e.Alts {
 			if x := d.seqMin(a.Parts); x < m {
 				m = x
 			}
 		}
 		return m
-	case Opt:
+	case KOpt:
 		return 0
-	case List:
+	case KList:
 		if e.Plus {
 			return d.exprMin(e.Sub)
 		}
@@ -537,18 +537,18 @@ func (d *deriver) exprMin(e *Expr) int {
 // whose element) that can be empty: such a grammar has infinitely many derivations and is
 // outside the property's domain.
 func (g *Grammar) NullableListElement() bool {
-	d := &deriver{g: g}
+	d := &evDeriver{g: g}
 	d.prepare()
 	bad := false
 	g.walkExprs(func(e *Expr) {
-		if e.Kind == List && d.exprMin(e.Sub) == 0 {
+		if e.Kind == KList && d.exprMin(e.Sub) == 0 {
 			bad = true
 		}
 	})
 	return bad
 }
 
-func (d *deriver) spend() bool {
+func (d *evDeriver) spend() bool {
 	d.budget--
 	if d.budget < 0 {
 		d.overflow = true
@@ -557,10 +557,10 @@ func (d *deriver) spend() bool {
 	return true
 }
 
-func (d *deriver) seq(parts []*Expr, i, j int) []frag {
+func (d *evDeriver) seq(parts []*Expr, i, j int) []evFrag {
 	if len(parts) == 0 {
 		if i == j {
-			return []frag{{}}
+			return []evFrag{{}}
 		}
 		return nil
 	}
@@ -569,7 +569,7 @@ func (d *deriver) seq(parts []*Expr, i, j int) []frag {
 	}
 	restMin := d.seqMin(parts[1:])
 	firstMin := d.exprMin(parts[0])
-	var out []frag
+	var out []evFrag
 	for m := i; m <= j; m++ {
 		if firstMin > m-i || restMin > j-m {
 			continue
@@ -584,7 +584,7 @@ func (d *deriver) seq(parts []*Expr, i, j int) []frag {
 				if !d.spend() {
 					return nil
 				}
-				f := frag{syms: append(append([]*Node{}, l.syms...), r.syms...), parts: append([]Part{}, l.parts...)}
+				f := evFrag{syms: append(append([]*Node{}, l.syms...), r.syms...), parts: append([]Part{}, l.parts...)}
 				for _, p := range r.parts {
 					p.P += len(l.syms)
 					p.Q += len(l.syms)
@@ -597,55 +597,55 @@ func (d *deriver) seq(parts []*Expr, i, j int) []frag {
 	return out
 }
 
-func (d *deriver) alt(a *Alt, arrow *Arrow, i, j int) []frag {
+func (d *evDeriver) alt(a *Alt, arrow *Arrow, i, j int) []evFrag {
 	frs := d.seq(a.Parts, i, j)
 	if arrow == nil {
 		return frs
 	}
-	out := make([]frag, len(frs))
+	out := make([]evFrag, len(frs))
 	for k, f := range frs {
-		out[k] = frag{syms: f.syms, parts: append(append([]Part{}, f.parts...), Part{Arrow: arrow, P: 0, Q: len(f.syms), TI: i, TJ: j})}
+		out[k] = evFrag{syms: f.syms, parts: append(append([]Part{}, f.parts...), Part{Arrow: arrow, P: 0, Q: len(f.syms), TI: i, TJ: j})}
 	}
 	return out
 }
 
-func (d *deriver) expr(e *Expr, i, j int) []frag {
+func (d *evDeriver) expr(e *Expr, i, j int) []evFrag {
 	switch e.Kind {
-	case Tok:
+	case KTok:
 		if j == i+1 && d.w[i] == e.Ch {
-			return []frag{{syms: []*Node{{Tok: i, I: i, J: j}}}}
+			return []evFrag{{syms: []*Node{{Tok: i, I: i, J: j}}}}
 		}
 		return nil
-	case Ref:
-		var out []frag
+	case KRef:
+		var out []evFrag
 		for _, n := range d.nt(e.NT, i, j) {
-			out = append(out, frag{syms: []*Node{n}})
+			out = append(out, evFrag{syms: []*Node{n}})
 		}
 		return out
-	case Group:
-		var out []frag
+	case KGroup:
+		var out []evFrag
 		for _, a := range e.Alts {
 			out = append(out, d.alt(a, a.Arrow, i, j)...)
 		}
 		return out
-	case Opt:
+	case KOpt:
 		out := d.expr(e.Sub, i, j)
 		if i == j {
 			// the absent optional: no symbol at all
-			out = append(append([]frag{}, out...), frag{})
+			out = append(append([]evFrag{}, out...), evFrag{})
 		}
 		return out
-	case List:
-		var out []frag
+	case KList:
+		var out []evFrag
 		for _, n := range d.list(e, i, j) {
-			out = append(out, frag{syms: []*Node{n}})
+			out = append(out, evFrag{syms: []*Node{n}})
 		}
 		return out
 	}
 	panic("bad kind")
 }
 
-func (d *deriver) nt(n, i, j int) []*Node {
+func (d *evDeriver) nt(n, i, j int) []*Node {
 	key := [3]int{n, i, j}
 	if r, ok := d.ntMemo[key]; ok {
 		return r
@@ -679,7 +679,7 @@ func (d *deriver) nt(n, i, j int) []*Node {
 
 // list enumerates the instances of a list over [i, j). One iteration level is one rule
 // application: `list: list elem`, `list: list sep elem`, `list: elem`, `list: %empty`.
-func (d *deriver) list(e *Expr, i, j int) []*Node {
+func (d *evDeriver) list(e *Expr, i, j int) []*Node {
 	if !e.Plus && i == j {
 		return []*Node{{Tok: -1, I: i, J: j, What: "list-empty"}}
 	}
@@ -687,7 +687,7 @@ func (d *deriver) list(e *Expr, i, j int) []*Node {
 }
 
 // chain: list instances with at least one element.
-func (d *deriver) chain(e *Expr, i, j int) []*Node {
+func (d *evDeriver) chain(e *Expr, i, j int) []*Node {
 	if i >= j || d.overflow {
 		return nil
 	}
@@ -700,7 +700,7 @@ func (d *deriver) chain(e *Expr, i, j int) []*Node {
 		return r
 	}
 	var out []*Node
-	mk := func(prefix []*Node, f frag) {
+	mk := func(prefix []*Node, f evFrag) {
 		n := &Node{Tok: -1, I: i, J: j, What: "list-level"}
 		n.Syms = append(append([]*Node{}, prefix...), f.syms...)
 		for _, p := range f.parts {
@@ -756,7 +756,7 @@ func (d *deriver) chain(e *Expr, i, j int) []*Node {
 // giveUp is set when the grammar is cyclic (X =>+ X) or the enumeration budget is exhausted;
 // the result is then meaningless.
 func (g *Grammar) Trees(w string) (trees []*Node, giveUp bool) {
-	d := &deriver{g: g, w: []byte(w), ntMemo: map[[3]int][]*Node{}, inprog: map[[3]int]bool{}, listMemo: map[*Expr]map[[2]int][]*Node{}, budget: 20000}
+	d := &evDeriver{g: g, w: []byte(w), ntMemo: map[[3]int][]*Node{}, inprog: map[[3]int]bool{}, listMemo: map[*Expr]map[[2]int][]*Node{}, budget: 20000}
 	d.prepare()
 	trees = d.nt(0, 0, len(w))
 	return trees, d.cyclic || d.overflow
@@ -820,12 +820,12 @@ type Event struct {
 
 func (e Event) String() string { return fmt.Sprintf("%s[%d,%d)", e.Type, e.Off, e.End) }
 
-type span struct{ off, end int }
+type evSpan struct{ off, end int }
 
-// spanOf applies the range rule to a run of symbols that starts at token position ti.
-func spanOf(rs []span, at int, fixWS bool) span {
+// evSpanOf applies the range rule to a run of symbols that starts at token position ti.
+func evSpanOf(rs []evSpan, at int, fixWS bool) evSpan {
 	if len(rs) == 0 {
-		return span{at, at}
+		return evSpan{at, at}
 	}
 	q := len(rs)
 	if fixWS {
@@ -833,7 +833,7 @@ func spanOf(rs []span, at int, fixWS bool) span {
 			q--
 		}
 	}
-	return span{rs[0].off, rs[q-1].end}
+	return evSpan{rs[0].off, rs[q-1].end}
 }
 
 // Events lists the expected listener calls for one derivation tree and one spacing of the
@@ -842,18 +842,18 @@ func spanOf(rs []span, at int, fixWS bool) span {
 // disagrees with it: that would be an error of this reference, not of the code under test.
 func Events(root *Node, in Input, fixWS bool) []Event {
 	var out []Event
-	var sym func(n *Node) span
-	sym = func(n *Node) span {
+	var sym func(n *Node) evSpan
+	sym = func(n *Node) evSpan {
 		if n.Tok >= 0 {
-			return span{in.Toks[n.Tok].Off, in.Toks[n.Tok].End}
+			return evSpan{in.Toks[n.Tok].Off, in.Toks[n.Tok].End}
 		}
-		rs := make([]span, len(n.Syms))
+		rs := make([]evSpan, len(n.Syms))
 		for k, s := range n.Syms {
 			rs[k] = sym(s)
 		}
 		for _, p := range n.Parts {
-			sp := spanOf(rs[p.P:p.Q], in.At(p.TI), fixWS)
-			closed := span{in.At(p.TI), in.At(p.TI)}
+			sp := evSpanOf(rs[p.P:p.Q], in.At(p.TI), fixWS)
+			closed := evSpan{in.At(p.TI), in.At(p.TI)}
 			if p.TJ > p.TI {
 				closed.end = in.Toks[p.TJ-1].End
 			}
@@ -869,7 +869,7 @@ func Events(root *Node, in Input, fixWS bool) []Event {
 			out = append(out, Event{Type: p.Arrow.Name, Off: sp.off, End: sp.end, Shape: p.Arrow.Shape,
 				NoSyms: p.P == p.Q, NoTokens: p.TI == p.TJ, Extends: sp.end != closed.end})
 		}
-		return spanOf(rs, in.At(n.I), fixWS)
+		return evSpanOf(rs, in.At(n.I), fixWS)
 	}
 	sym(root)
 	return out
